@@ -28,7 +28,7 @@ EXPLANATION = (
     "and nothing that can raise follows it; R9 on_request needs one byte outside its try and abort() cannot raise "
     "(integer multiplexer from construction); R10 value precedence callbacks -> data_store -> value -> default -> abort, "
     "each source selected by presence (is not None / KeyError), never by truthiness; R11 an accepted download stores an "
-    "immutable copy of exactly the transferred bytes; R12 every segmented transfer starts from a fresh buffer and toggle 0. R14 no class-level mutable object is mutated in place by instances (each node/client/map/dictionary has its own state)."
+    "immutable copy of exactly the transferred bytes; R12 every segmented transfer starts from a fresh buffer and toggle 0. R14 [R15: ODVariable.__len__ gives every data type its width and is never 0 (shared with C04.R5)] no class-level mutable object is mutated in place by instances (each node/client/map/dictionary has its own state)."
 )
 ASSUMPTIONS = [
     "not decided: values for generated object dictionaries and request histories; read/write callbacks are opaque",
@@ -236,6 +236,12 @@ def _conservation(chk, repo, folder):
             else:
                 chk.check(folder.try_fold(s_.value, ff.scope, None) == 4, "R4", f"{SV}:SdoServer.init_download | expedited size (unsized)", f.loc(s_), src(s_))
 
+    # R16: entries of arrays that are described once (implicit members) are served like described ones (shared with C08.R11 / C06.R9)
+    from . import c08 as _c08im
+    _c08im.implicit_members(chk, "R16")
+    # ------------------------------------------------------------------ R15 ODVariable.__len__ per data type (the download length check and size announcements use len(obj); shared with C04.R5)
+    from . import c04 as _c04len
+    _c04len.bit_length_by_type(chk, "R15")
     # ------------------------------------------------------------------ R14 instances are independent (shared clause)
     from . import shared as _shared
     _shared.isolation(chk, "R14", rels=['canopen/sdo/server.py', 'canopen/sdo/base.py', 'canopen/node/local.py', 'canopen/objectdictionary/__init__.py', 'canopen/objectdictionary/datatypes.py'])
